@@ -278,6 +278,38 @@ def maxPayload (cmd : String) (pver : Nat) : Nat :=
   else if cmd = "cfcheckpt" then 1 + 32 + 5 + maxCFHeadersLen * 32
   else 0
 
+/-! ### v2 transport framing (message.go: WriteV2MessageN / ReadV2MessageN, BIP324 short message ids) -/
+
+/-- `v2Messages`: short id of a command, if it has one -/
+def v2Table : List (Nat × String) :=
+  [(1, "addr"), (2, "block"), (5, "feefilter"), (6, "filteradd"), (7, "filterclear"), (8, "filterload"),
+   (9, "getblocks"), (11, "getdata"), (12, "getheaders"), (13, "headers"), (14, "inv"), (15, "mempool"),
+   (16, "merkleblock"), (17, "notfound"), (18, "ping"), (19, "pong"), (21, "tx"), (22, "getcfilters"),
+   (23, "cfilter"), (24, "getcfheaders"), (25, "cfheaders"), (26, "getcfcheckpt"), (27, "cfcheckpt"),
+   (28, "addrv2")]
+
+def v2IdOf (cmd : String) : Option Nat := (v2Table.find? (fun p => p.2 == cmd)).map (·.1)
+def v2CmdOf (id : Nat) : Option String := (v2Table.find? (fun p => p.1 == id)).map (·.2)
+
+/-- the v2 message-type prefix: one byte short id, or `00` + the 12-byte command field -/
+def v2Prefix (cmd : Bytes) (id : Option Nat) : Bytes :=
+  match id with
+  | some i => [UInt8.ofNat i]
+  | none => 0 :: padCommand cmd
+
+/-- `WriteV2MessageN` for a message with payload codec `c` -/
+def writeV2 {α : Type} (c : Codec α) (cmd : Bytes) (id : Option Nat) (a : α) : Bytes :=
+  v2Prefix cmd id ++ c.enc a
+
+/-- `ReadV2MessageN` once the prefix has selected the payload codec and its `MaxPayloadLength`; `pre` is the
+prefix that was read (short id or long form). The whole plaintext is one message: trailing bytes are an error. -/
+def readV2 {α : Type} (c : Codec α) (maxPayload : Nat) (pre : Bytes) (b : Bytes) : Except DErr α :=
+  if b.take pre.length ≠ pre then .error .badValue else
+  let payload := b.drop pre.length
+  if payload.length > MaxProtocolMessageLength then .error .tooBig
+  else if payload.length > maxPayload then .error .tooBig
+  else decodeAll c payload
+
 /-! ### the two tolerant decoders of the Go code (accept more than the canonical layout)
 
 `MsgVersion.BtcDecode` stops quietly when the buffer ends after `AddrYou` (later fields keep their
